@@ -274,6 +274,9 @@ pub fn check_program(prog: &Program, surface: Surface, seed: u64, thorough: bool
             n += 1;
             match in_re(surface, &mut mgr, wd, t) {
                 Ok(got) => {
+                    if got == want && wd.len() <= 5 && rb.size() <= 14 && rep.xchecks.len() < 60 && n % 97 == 1 {
+                        rep.xcheck(|| format!("(= (str.in_re {} {}) {})", crate::oracle::smtlib::lit(wd), crate::oracle::smtlib::re(&rb), got));
+                    }
                     if got != want {
                         let sig = format!("member:{}", callsig);
                         rep.violation("member", &sig, format!("step {} {}: str_in_re({}) = {} but the construction {} says {}; term {}", k, op.to_text(), show_str(wd), got, rb.show(), want, term_text(t)), kind, &case_for(k), seed);
